@@ -187,17 +187,19 @@ fn tmp_dir() -> PathBuf {
 /// → `(raw …) (json (names…) (steps…)) (cbor (names…) (steps…))`, or `None` if an export is malformed.
 fn export_log(log: &mahf::logging::Log) -> Result<[String; 3], &'static str> {
     let dir = tmp_dir();
-    // uncompressed: the log's own Serialize impl
-    let raw = serde_json::to_value(log).map_err(|_| "raw-ser")?;
+    // uncompressed: the log's own Serialize impl, captured as a value tree that keeps every float
+    let raw = ciborium::Value::serialized(log).map_err(|_| "raw-ser")?;
     let raw_steps = raw.as_array().ok_or("raw-shape")?;
     let mut rs = vec![];
     for st in raw_steps {
         let es = st.as_array().ok_or("raw-shape")?;
         let mut out = vec![];
         for e in es {
-            let name = e.get("name").and_then(|n| n.as_str()).ok_or("raw-shape")?;
-            let val = e.get("value").ok_or("raw-shape")?;
-            out.push(list([atomise(name), canon_json(val)]));
+            let m = e.as_map().ok_or("raw-shape")?;
+            let get = |key: &str| m.iter().find(|(k, _)| k.as_text() == Some(key)).map(|(_, v)| v);
+            let name = get("name").and_then(|n| n.as_text()).ok_or("raw-shape")?;
+            let val = get("value").ok_or("raw-shape")?;
+            out.push(list([atomise(name), canon_cbor(val)]));
         }
         rs.push(list(out));
     }
@@ -373,8 +375,13 @@ fn run_program(input: &Sx) -> String {
             if let Some((_, rs)) = rules.head() {
                 state.configure_log(|c| {
                     for r in rs {
-                        let (_, a) = r.head().unwrap();
-                        c.with(mk_trigger(&a[0]), mk_extractor(&a[1]));
+                        if r.atom() == Some("clear") { c.clear(); continue; }
+                        let (h, a) = r.head().unwrap();
+                        if h == "many" {
+                            c.with_many(mk_trigger(&a[0]), a[1..].iter().map(mk_extractor).collect::<Vec<_>>());
+                        } else {
+                            c.with(mk_trigger(&a[0]), mk_extractor(&a[1]));
+                        }
                     }
                     Ok(())
                 })?;
@@ -397,6 +404,40 @@ fn has_root_loop(tree: &[Sx]) -> bool {
         Some(("loop", _)) => true,
         _ => false,
     })
+}
+
+// site `logger-float`: loop n { Y := v[iteration]; Logger } with the rule (always, IdLens<Y>)
+#[derive(Clone, Default, Serialize, Tid, derive_more::Deref, derive_more::DerefMut)]
+pub struct Y(pub f64);
+impl CustomState<'_> for Y {}
+#[derive(Clone, Serialize)]
+struct SetYSeq(Vec<f64>);
+impl<P: Problem> Component<P> for SetYSeq {
+    fn execute(&self, _p: &P, state: &mut State<P>) -> ExecResult<()> {
+        let i = state.iterations() as usize;
+        if let Some(v) = self.0.get(i) { state.insert(Y(*v)); }
+        Ok(())
+    }
+}
+fn run_floats(input: &Sx) -> String {
+    let (_, a) = input.head().unwrap();
+    let vals: Vec<f64> = a.iter().map(|v| v.float().unwrap()).collect();
+    let n = vals.len() as u32;
+    let config: Configuration<TP> = Configuration::builder()
+        .while_(LessThanN::iterations(n), move |b| b.do_(Box::new(SetYSeq(vals.clone()))).do_(Logger::new()))
+        .build();
+    let r = catch(|| config.optimize_with(&TagProblem, |state| {
+        state.insert(Random::new(0));
+        state.configure_log(|c| { c.with_auto::<Y>(Box::new(Const(true))); Ok(()) })
+    }));
+    match r {
+        None => "(res panic)".into(),
+        Some(Err(_)) => "(res err)".into(),
+        Some(Ok(state)) => match export_log(&state.log()) {
+            Ok([raw, j, c]) => list(["res".into(), "ok".into(), raw, j, c]),
+            Err(e) => format!("(res export-{e})"),
+        },
+    }
 }
 
 // ------------------------------------------------------------------------------------------------
@@ -765,6 +806,7 @@ fn run_case(input: &Sx) -> String {
     match input.head().map(|h| h.0) {
         Some("lg") => run_program(input),
         Some("tl") => run_template_log(input),
+        Some("fl") => run_floats(input),
         Some("cfg") => run_cfg(input),
         _ => panic!("unknown case"),
     }
@@ -777,6 +819,7 @@ fn site_of(input: &Sx) -> String {
             if has_root_loop(tree) { "logger".into() } else { "logger-noloop".into() }
         }
         "tl" => "template-log".into(),
+        "fl" => if it[1..].iter().all(|v| v.float().map(|f| f.is_finite()).unwrap_or(false)) { "logger-float".into() } else { "logger-float-nonfinite".into() },
         _ => format!("cfg-{}", it[1].atom().unwrap()),
     }
 }
@@ -857,6 +900,10 @@ fn main() {
         "(rules (r (not never) (named 0 x)) (r (not always) (named 1 x)))",
         "(rules (r (every 1) iterid) (r (every 1) xid))",
         "(rules (r (every 3) (named 2 (const 4))) (r (every 2) (named 2 (const 5))) (r always (named 2 (const 6))))",
+        "(rules (many (every 2) xid iterval (named 0 x)) (r always xval))",
+        "(rules (many always evals best xid) (many (not (every 3)) (named 1 iter) (named 1 x)))",
+        "(rules (r always (named 3 (const 1))) (many always xid xval) clear (r (every 2) xid))",
+        "(rules (r always xid) clear)",
     ];
     let placements: Vec<Box<dyn Fn(u64) -> String>> = vec![
         Box::new(|n| format!("(tree (log) (loop {n} (addx 1)))")),
@@ -890,7 +937,17 @@ fn main() {
     for _ in 0..n_rand {
         let nr = r.below(5);
         let rules = if r.chance(1, 25) { "noconfig".to_string() } else {
-            tagged("rules", (0..nr).map(|_| format!("(r {} {})", gen_trig(&mut r), gen_ext(&mut r))))
+            let items: Vec<String> = (0..nr).map(|_| match r.below(12) {
+                0 => "clear".to_string(),
+                1 | 2 => {
+                    // with_many clones the trigger: only stateless triggers here
+                    let t = loop { let t = gen_trig(&mut r); if !t.contains("script") { break t; } };
+                    let k = r.range(1, 3);
+                    tagged(&format!("many {t}"), (0..k).map(|_| gen_ext(&mut r)))
+                }
+                _ => format!("(r {} {})", gen_trig(&mut r), gen_ext(&mut r)),
+            }).collect();
+            tagged("rules", items)
         };
         let len = r.range(1, 4);
         let mut tree = gen_nodes(&mut r, 2, len);
@@ -903,6 +960,19 @@ fn main() {
         }
         emit(format!("(lg {} {})", rules, tagged("tree", tree)));
     }
+
+    // 2b. float values through the exports (bit-exact), finite and non-finite
+    let specials = [0.0f64, -0.0, 1.0, -1.5, 0.1, 1e300, -1e-300, 5e-324, f64::MAX, f64::MIN_POSITIVE, 1.0 / 3.0, 123456789.125];
+    emit(tagged("fl", specials.iter().map(|v| fx(*v))));
+    for _ in 0..(if a.thorough { 400 } else { 60 }) {
+        let n = r.range(1, 6);
+        emit(tagged("fl", (0..n).map(|_| {
+            let f = f64::from_bits(r.next());
+            fx(if f.is_finite() { f } else { r.unit() })
+        })));
+    }
+    emit(tagged("fl", [fx(1.0), fx(f64::INFINITY)]));
+    emit(tagged("fl", [fx(f64::NEG_INFINITY), fx(2.0)]));
 
     // 3. every template with a log configuration
     let tl_rules = |k1: u64, k2: u64, k3: u64| -> String {
